@@ -57,13 +57,25 @@ def certificate_np(M, M0, vs, ys, lams, tol=1e-6):
   return None
 
 
+def kkt_residual(A, lams, bh, vs, ys):
+  """largest relative violation of: lambda_i = 0 and bound met, or v^T A v = slack-adjusted bound"""
+  q = np.einsum('ij,jk,ik->i', vs, A, vs)
+  r = 0.0
+  for qi, li, bi, yi in zip(q, lams, bh, ys):
+    if li > 0:
+      r = max(r, abs(qi - bi) / bi)
+    else:
+      r = max(r, max(0.0, (qi - bi) if yi == 1 else (bi - qi)) / bi)
+  return float(r)
+
+
 def run(ctx):
   thorough = ctx.tier == 'thorough'
   rng = ctx.rng
   ctx.rule = ("ITML and ITML_Supervised x prior in {identity, covariance, random, SPD array} x gamma in {0.1, 1, 10, inf} x default "
               "/ explicit bounds (either order) x max_iter in 1..200, d in 2..5, up to 40 pairs: (a) the Coq model re-runs the projections on "
               "binary64 from the prior the implementation started from, the same pair differences and bounds_, for n_iter_+1 "
-              "sweeps, and must reproduce A, lambda and the slack bounds (1e-6); (b) exact-rational certificate on the "
+              "sweeps, and must reproduce A, lambda and the slack bounds (1e-6); the model's loop with the code's stopping test and the same tol / max_iter must stop after the same number of sweeps; features in units 2^-10 .. 2^17 (bounds, priors scaled accordingly), tol in 1e-3 .. 1e-9; (b) exact-rational certificate on the "
               "implementation's own M and lambda: M SPD (LDL^T), lambda >= 0, M (M0^-1 + sum y_i lambda_i v_i v_i^T) = I; "
               "(c) priors that satisfy all bounds are returned unchanged.  non-trivial = at least one lambda_i > 0.")
   ctx.trusted = ["Coq 8.16.1 kernel + vm_compute", "hand-written model Model/ITML.v tied by the binary64 re-run",
@@ -71,20 +83,35 @@ def run(ctx):
                  "KKT => unique optimum of the LogDet problem (strict convexity) is not mechanised"]
   ok = ctx.build_property()
   terms, recs = [], []
-  n = 80 if thorough else 16
+  n = 96 if thorough else 24
   for i in range(n):
     name = ['ITML', 'ITML_Supervised'][i % 4 == 3]
     data = fits.make_data(rng, d=int(rng.integers(2, 6)))
     d = data['d']
+    # the unit the features are measured in (squared distances, bounds and dual variables scale with units^2)
     prior = ['identity', 'covariance', 'random', 'array'][i % 4 if name == 'ITML' else int(rng.integers(0, 4))]
+    # the unit the features are measured in.  With a prior expressed in the same units (covariance, or a given
+    # array scaled by 1/units^2) learned distances and bounds are unit-free; with a fixed prior (identity, random)
+    # squared distances scale with units^2 and so must explicit bounds: large units are then drawn only together
+    # with explicit bounds (the default bounds are percentiles of the unsquared Euclidean distances, which for data
+    # in large units lie orders of magnitude below the squared distances they are compared with: the rank-one
+    # downdates then cancel catastrophically in binary64, outside any rounding guarantee)
+    explicit = bool(rng.random() < 0.7)
+    scaled_prior = prior in ('covariance', 'array')
+    choices = [1.0, 2.0 ** -10, 2.0 ** 7, 2.0 ** 14, 2.0 ** 17, 2.0 ** 20] if (scaled_prior or explicit) else [1.0, 1.0, 2.0 ** -10, 2.0 ** 4]
+    units = float(choices[int(rng.integers(0, len(choices)))])
+    data = dict(data)
+    data['X'] = data['X'] * units
+    ctx.hist('units', units)
     gam = [0.1, 1.0, 10.0, np.inf][int(rng.integers(0, 4))]
-    kw = dict(gamma=gam, max_iter=int(rng.choice([1, 2, 5, 20, 200])), prior=prior if prior != 'array' else fits.spd_array(rng, d),
-              random_state=int(rng.integers(0, 100)), tol=1e-3)
+    kw = dict(gamma=gam, max_iter=int(rng.choice([1, 2, 5, 20, 200])),
+              prior=prior if prior != 'array' else fits.spd_array(rng, d) / units ** 2,
+              random_state=int(rng.integers(0, 100)), tol=float([1e-3, 1e-3, 1e-6, 1e-9][int(rng.integers(0, 4))]))
     if name == 'ITML_Supervised':
       kw['n_constraints'] = int(rng.integers(5, 20))
     bounds = None
-    if rng.random() < 0.5:
-      bounds = np.array([float(rng.choice([0.25, 0.5, 1.0])), float(rng.choice([3.0, 6.0]))])
+    if explicit:
+      bounds = np.array([float(rng.choice([0.25, 0.5, 1.0])), float(rng.choice([3.0, 6.0]))]) * (1.0 if scaled_prior else units ** 2)
       if rng.random() < 0.3:
         bounds = bounds[::-1].copy()     # loose specification: similar pairs within u, dissimilar beyond l, u > l
         ctx.hist('bounds', 'explicit, bounds[0] > bounds[1]')
@@ -111,10 +138,10 @@ def run(ctx):
     lo, hi = float(est.bounds_[0]), float(est.bounds_[1])
     inp = dict(estimator=name, params=opt, X=data['X'].tolist(), pairs_idx=data['pairs_idx'].tolist(), y=data['ypairs'].tolist())
     cond = float(np.linalg.cond(M))
-    if cond > 1e7 or lo < 1e-6:
+    if cond > 1e7 or lo < 1e-6 * hi:
       # e.g. a default lower bound of 0 (replaced by 1e-9): the certificate's residual is dominated by rounding
       ctx.count('certificate', 1, skipped=1)
-      ctx.hist('skipped_ill_conditioned', 'cond>1e7 or bounds_[0]<1e-6')
+      ctx.hist('skipped_ill_conditioned', 'cond>1e7 or bounds_[0]<1e-6*bounds_[1]')
       continue
     r = certificate_np(M, A0, vs, ys, lams)
     ctx.count('certificate', 1)
@@ -128,9 +155,68 @@ def run(ctx):
     recs.append(dict(kind='run', inp=inp, sweeps=sweeps))
     terms.append("(c11_certificate %d%%nat %s %s %s %s)" % (d, gmat(M, qdy), gmat(A0, qdy), gq, gvec(lams, qdy)))
     recs.append(dict(kind='certificate', inp=inp))
+    # the stopping rule: the model's loop stops after the same number of sweeps
+    terms.append("(c11_stop %s %s %s %s %s %s %d%%nat %d%%nat)" % (
+        "None" if np.isinf(gam) else "(Some %s)" % fhex(gam), gmat(A0), gvs, fhex(lo), fhex(hi), fhex(kw['tol']),
+        kw['max_iter'], int(est.n_iter_)))
+    recs.append(dict(kind='stop', inp=inp, sweeps=sweeps, state=(cap['A'], lams, bh, vs, ys), tol=kw['tol'], max_iter=kw['max_iter']))
+    # converged clause on the implementation's own numbers: when the loop stopped before the budget with a small
+    # tol, every constraint is inactive (lambda = 0, slack-adjusted bound met) or tight, up to 1000 tol
+    if int(est.n_iter_) < kw['max_iter'] - 1 and kw['tol'] <= 1e-6:
+      ctx.count('converged_kkt', 1)
+      r = kkt_residual(cap['A'], lams, bh, vs, ys)
+      if r > 1e3 * kw['tol']:
+        ctx.fail_input('converged_kkt', 'the solver reports convergence (n_iter_ < max_iter - 1) but a constraint is neither inactive nor tight',
+                       inp, observed=dict(n_iter=int(est.n_iter_), relative_residual=r, tol=kw['tol']))
     ctx.seen((name, repr(sorted(opt.items())), i), bool(np.any(lams > 0)))
     ctx.hist('sweeps', sweeps)
     ctx.sample(dict(estimator=name, params=opt, sweeps=sweeps, lam=lams[:5].tolist()), limit=4)
+  # ---- the same problem expressed in other units (a power of two, so that every operation of the solver scales
+  # exactly): same number of sweeps, M scales by 1 / units^2, and a run that reports convergence is inactive-or-tight
+  for rep in range(12 if thorough else 5):
+    data = fits.make_data(rng, d=int(rng.integers(2, 5)))
+    d = data['d']
+    gam = [0.5, 1.0, 4.0, np.inf][int(rng.integers(0, 4))]
+    P0 = fits.spd_array(rng, d)
+    use_cov = bool(rng.random() < 0.4)
+    tol = float([1e-3, 1e-6][int(rng.integers(0, 2))])
+    b0 = np.array([float(rng.choice([0.5, 1.0])), float(rng.choice([3.0, 6.0]))])
+    runs = {}
+    for u in (1.0, 2.0 ** 14, 2.0 ** 20, 2.0 ** -12):
+      du = dict(data)
+      du['X'] = data['X'] * u
+      kw = dict(gamma=gam, max_iter=300, tol=tol, prior='covariance' if use_cov else np.ascontiguousarray(P0) / u ** 2)
+      try:
+        est, cap, A0 = fit_observed('ITML', kw, du, b0.copy())      # learned distances, hence bounds, are unit-free
+      except Exception as ex:
+        runs[u] = ('raises ' + type(ex).__name__, None, None)
+        continue
+      vs = np.vstack([cap['pos_vv'], cap['neg_vv']])
+      ys = np.array([1] * len(cap['pos_vv']) + [-1] * len(cap['neg_vv']))
+      bh = np.concatenate([cap['pos_bhat'], cap['neg_bhat']])
+      runs[u] = (int(est.n_iter_), est.get_mahalanobis_matrix() * u ** 2, kkt_residual(cap['A'], cap['_lambda'], bh, vs, ys))
+    ctx.count('units', 1)
+    ref = runs[1.0]
+    inp = dict(estimator='ITML', X=data['X'].tolist(), pairs_idx=data['pairs_idx'].tolist(), y=data['ypairs'].tolist(),
+               gamma=gam, tol=tol, max_iter=300, bounds=b0.tolist(), prior='covariance' if use_cov else P0.tolist())
+    if isinstance(ref[0], str) or np.linalg.cond(ref[1]) > 1e7:
+      ctx.count('units', 0, skipped=1)
+      continue
+    for u, got in runs.items():
+      if u == 1.0:
+        continue
+      if isinstance(got[0], str):
+        ctx.fail_input('units', 'ITML %s on the data expressed in other units (fits in units of 1)' % got[0], dict(inp, units=u))
+      elif got[0] != ref[0] or np.abs(got[1] - ref[1]).max() > 1e-6 * np.abs(ref[1]).max():
+        early = got[0] < ref[0] and got[0] < 299
+        if early and got[2] > 10 * max(ref[2], tol):
+          ctx.fail_input('converged_kkt', 'on the same problem in other units the solver reports convergence earlier, at a point where a constraint is neither inactive nor tight',
+                         dict(inp, units=u), observed=dict(n_iter=got[0], relative_residual=got[2]),
+                         expected=dict(n_iter=ref[0], relative_residual=ref[2]))
+        else:
+          ctx.fail_input('units', 'the learned matrix is not the same metric when the problem is expressed in other units',
+                         dict(inp, units=u), observed=dict(n_iter=got[0], M_times_units2=got[1].tolist()),
+                         expected=dict(n_iter=ref[0], M=ref[1].tolist()))
   # priors that already satisfy all bounds are returned unchanged
   from metric_learn import ITML
   for rep in range(10 if thorough else 3):
@@ -157,6 +243,15 @@ def run(ctx):
         ctx.count('correspondence_' + rec['kind'], 0, failures=1)
         if rec['kind'] == 'certificate':
           ctx.fail_input('certificate', 'exact-rational certificate (SPD, lambda >= 0, M B = I) fails', rec['inp'])
+        elif rec['kind'] == 'stop':
+          A_, l_, b_, v_, y_ = rec['state']
+          r = kkt_residual(A_, l_, b_, v_, y_)
+          if rec['sweeps'] < rec['max_iter'] and r > 1e3 * max(rec['tol'], 1e-12) and r > 1e-2:
+            ctx.fail_input('converged_kkt', 'the solver stopped before max_iter although the documented stopping test is not met, at a point where a constraint is neither inactive nor tight',
+                           rec['inp'], observed=dict(sweeps=rec['sweeps'], relative_residual=r, tol=rec['tol']))
+          else:
+            ctx.break_tie('correspondence', 'c11_stop', "the documented stopping rule stops after another number of sweeps than %s %s (%d sweeps)" % (
+                rec['inp']['estimator'], rec['inp']['params'], rec['sweeps']))
         else:
           ctx.break_tie('correspondence', 'c11_run', "re-running the documented projections gives another state than %s %s (%d sweeps)" % (
               rec['inp']['estimator'], rec['inp']['params'], rec['sweeps']))
